@@ -265,6 +265,21 @@ def check_bytes(model, data):
             ReadBIT.create_bit_frame_array_from_file(io.BytesIO(dmg))
         except Exception:  # noqa
             pass
+    # the block walk the reader is built on keeps its place in the stream although the caller uses the stream between two blocks
+    # (the library says so: "Protect file position in case the caller messes with it"): asked is_bit_file() after every block
+    if hasattr(ReadBIT, 'yield_tif_blocks') and len(data) < 20000:
+        try:
+            straight = [(b.tell, b.tif_type, bytes(b.payload)) if hasattr(b, 'payload') else tuple(b) for b in ReadBIT.yield_tif_blocks(io.BytesIO(data))]
+            stream = io.BytesIO(data)
+            broken = []
+            for b in ReadBIT.yield_tif_blocks(stream):
+                broken.append((b.tell, b.tif_type, bytes(b.payload)) if hasattr(b, 'payload') else tuple(b))
+                ReadBIT.is_bit_file(stream)
+            if broken != straight:
+                add({'kind': 'bit_block_walk_disturbed_by_the_caller'}, 'yield_tif_blocks() with is_bit_file(stream) asked after every block gives %d blocks, undisturbed %d (or other content)'
+                    % (len(broken), len(straight)))
+        except Exception as err:  # noqa
+            add({'kind': 'bit_read_raises', 'exception': type(err).__name__, 'walk': 'blocks'}, 'block walk raised %s: %s' % (type(err).__name__, err))
     fobj = io.BytesIO(data)
     try:
         # the way the tools use a file object: asked "is this a BIT file?" first, then read through the same object
